@@ -43,7 +43,14 @@ MANIFEST = {
              "on every run by exact line-by-line correspondence (6 regular pairs x every start segment x lengths up to 3 years x NaN masks x "
              "methods x discard/select, daily->M/Q/H/Y around leap and century years, disaggregation incl. DAILY, round trips, the arip matrices "
              "captured at numpy.linalg.solve) and the arip solution against the exact rational solve; an independent datetime/fractions oracle on "
-             "the implementation supplies the replay."),
+             "the implementation supplies the replay. Round 4 (Props/C12Ext): two trimmed well-shaped series with equal period-indexed maps have "
+             "equal (start, rows) and Series.trim yields that form, hence the round trips return the very same representation; variant locality "
+             "(each output column of aggregate / daily aggregate / disaggregate is a function of its own input column alone); keyword resolution "
+             "(explicit discard_missing wins over legacy remove_missing, default False, method or 'mean') modelled and tied by an exhaustive "
+             "options stream incl. function form = in-place method form; a memoised per-variant loop equals the plain loop iff the key determines "
+             "the value (the (nHigh, rho, const, sigma) key is sound, a rho-only key is refuted), the whole multi-variant arip loop tied to one call "
+             "on the multi-variant series; the DAILY finding C12-a is machine-checked clause by clause on the model of the current code "
+             "(placement, uncovered days, first, failing round trip)."),
     "design": "7/C12",
     "note": ("IEEE rounding is outside the theorems: data are dyadic so that sums/products are exact, statistics.mean is compared with the "
              "correctly rounded exact mean; arip outputs are compared with tolerances (1e-8 relative) on generator-controlled instances. "
